@@ -36,6 +36,49 @@ WELLFORMED_CONTROLS = ["S { a: 1, .. }", "> 1 > 2", "#(1, 2, ..)", "#(..)", "#(.
                        "== 5", "=~ x", "> 1", "_ { a: 1, .. }", "[1, .., 2]", "S { a.m(1, 2): 1, .. }", "S { a.0.1: 1, .. }"]
 
 
+MULTI_REST = ["[.., ..]", "[.., .., ..]", "[1, .., 2, ..]", "[.., 1, ..]", "[.., .., 1]", "[1, .., ..]", "[..,..,]"]
+SINGLE_REST_CONTROLS = ["[..]", "[.., ]", "[1, ..]", "[.., 2]", "[1, .., 2]"]
+
+
+def compiler_raised(ck):
+    """Malformations only the compiler can reject (the macro's parser accepts them): more than one `..` in a slice pattern,
+    in every position; rustc must reject the program (and accept the single-`..` controls)."""
+    import t3
+    import tgen
+
+    def make(rng, _n):
+        cases = []
+        k = 0
+        for group, pats in (("multi-rest", MULTI_REST), ("control", SINGLE_REST_CONTROLS)):
+            for pat in pats:
+                for (ctx, ty, val, sx) in (("%s", "Vec<i32>", "vec![1, 2]", "(seq (int 1) (int 2))"),
+                                          ("W { xs: %s }", "W", "W { xs: vec![1, 2] }", "(adt %s (names %s) (vals (seq (int 1) (int 2))))" % (tgen.hexs("W"), tgen.hexs("xs"))),
+                                          ("Some(%s)", "Option<Vec<i32>>", "Some(vec![1, 2])", "(adt %s (names) (vals (seq (int 1) (int 2))))" % tgen.hexs("Some")),
+                                          ("[%s, ..]", "Vec<Vec<i32>>", "vec![vec![1, 2]]", "(seq (seq (int 1) (int 2)))")):
+                    c = t3.Case()
+                    c.id = k
+                    k += 1
+                    c.group = group
+                    c.forms = {group: 1}
+                    c.meanings = "(meanings (v %s (int 1)) (v %s (int 2)))" % (tgen.hexs("1"), tgen.hexs("2"))
+                    t3.finish_case(c, "#[derive(Debug)] pub struct W { pub xs: Vec<i32> }", ty, val, sx, ctx % pat)
+                    cases.append(c)
+        return cases
+
+    cases = t3.run_corpus(ck, "c15-compiler", 0, per_bin=4, positions=make)
+    dist = {}
+    for c in cases:
+        accepted = c.got[0] in ("pass", "fail")
+        dist["%s:%s" % (c.group, "accepted" if accepted else "rejected")] = dist.get("%s:%s" % (c.group, "accepted" if accepted else "rejected"), 0) + 1
+        if c.group == "multi-rest" and accepted:
+            ck.report("accepted:slice-multi-rest", "a slice pattern with more than one `..` is accepted (and reinterpreted)", dict(t3.describe(c)))
+        elif c.group == "control" and not accepted:
+            ck.report("control-rejected:slice-rest", "a well-formed slice pattern with one `..` is rejected", dict(t3.describe(c), rustc=c.got[2][:300]))
+    ck.corr_record("T3 compiler-raised malformations (more than one `..` in a slice pattern x 4 positions, single-`..` controls): rustc must reject / accept",
+                   len(cases), len(cases), 0, dist, samples=[dict(invocation="assert_struct!(%s)" % cases[0].text)], exhaustive=True,
+                   rule="%d multi-rest shapes and %d controls x 4 positions" % (len(MULTI_REST), len(SINGLE_REST_CONTROLS)))
+
+
 def run(ck):
     ck.prove(["AsModel.Theorems.C15", "AsModel.Theorems.C15Parse"])
     ck.build_harness("inproc")
@@ -100,3 +143,4 @@ def run(ck):
                    checked, checked, dropped, {"accepted_inputs": checked}, samples=[dict(invocation=inputs[0][1][:120])],
                    rule="the T1 input set (valid inputs, truncations, single-token edits, random sequences); accepted inputs only")
     ck.assumptions += ["the malformed classes are instantiated by construction (the instances are listed in checks/c15.py); the parser itself is tied differentially, its Lean model is a growth item"]
+    compiler_raised(ck)
